@@ -147,56 +147,38 @@ Section WithErf.
 
   Lemma gauss_int_R tu ts te sg tol t1 t2 :
     t_int RN (Gauss tu ts te sg tol) None t1 t2 =
-      gauss_G sg ((ts + te) / 2) t2 - gauss_G sg ((ts + te) / 2) t1.
+      gauss_G sg ((ts + te) / 2) (Rmin (Rmax t2 ts) te) - gauss_G sg ((ts + te) / 2) (Rmin (Rmax t1 ts) te).
   Proof.
     cbn [t_int]. rewrite !(to_self_None _ _ _ _ _ K_ga_int_conv), gauss_integral_spec. reflexivity.
   Qed.
 
-  (* what the integral of the profile values really is: the erf difference clipped to the window *)
-  Theorem gauss_is_RInt_clipped tu ts te sg tol t1 t2 : 0 < sg -> ts <= te -> t1 <= t2 ->
-    is_RInt (t_call RN (Gauss tu ts te sg tol) None) t1 t2
-      (if Rle_dec ts t2 then if Rle_dec t1 te
-       then t_int RN (Gauss tu ts te sg tol) None (Rmax t1 ts) (Rmin t2 te) else 0 else 0).
-  Proof.
-    intros Hs Hw H12. rewrite gauss_int_R.
-    apply (is_RInt_window (t_call RN (Gauss tu ts te sg tol) None) (gauss_g sg ((ts + te) / 2))
-                          (gauss_G sg ((ts + te) / 2))); try assumption.
-    - intros x Hx. rewrite gauss_call_R. destruct (Rle_dec ts x); [|lra]. destruct (Rlt_dec x te); [reflexivity|lra].
-    - intros x Hx. rewrite gauss_call_R. destruct (Rle_dec ts x); [|reflexivity]. destruct (Rlt_dec x te); [lra|reflexivity].
-    - intros a b _ _ _. apply gauss_is_RInt_line. assumption.
-  Qed.
-
-  (* the code's value is right for intervals inside the support window *)
-  Theorem gauss_is_RInt_inside tu ts te sg tol t1 t2 : 0 < sg -> ts <= t1 -> t1 <= t2 -> t2 <= te ->
+  (* get_integral (the erf difference of the interval clipped to the support window) is the
+     integral of the profile values, for every interval *)
+  Theorem gauss_is_RInt tu ts te sg tol t1 t2 : 0 < sg -> ts <= te -> t1 <= t2 ->
     is_RInt (t_call RN (Gauss tu ts te sg tol) None) t1 t2 (t_int RN (Gauss tu ts te sg tol) None t1 t2).
   Proof.
-    intros Hs H1 H12 H2.
-    generalize (gauss_is_RInt_clipped tu ts te sg tol t1 t2 Hs ltac:(lra) H12).
-    destruct (Rle_dec ts t2); [|lra]. destruct (Rle_dec t1 te); [|lra].
-    rewrite Rmax_left, Rmin_left by lra. trivial.
+    intros Hs Hw H12. rewrite gauss_int_R.
+    replace (gauss_G sg ((ts + te) / 2) (Rmin (Rmax t2 ts) te) - gauss_G sg ((ts + te) / 2) (Rmin (Rmax t1 ts) te))
+      with (if Rle_dec ts t2 then if Rle_dec t1 te
+            then gauss_G sg ((ts + te) / 2) (Rmin t2 te) - gauss_G sg ((ts + te) / 2) (Rmax t1 ts) else 0 else 0).
+    - apply (is_RInt_window (t_call RN (Gauss tu ts te sg tol) None) (gauss_g sg ((ts + te) / 2))
+                            (gauss_G sg ((ts + te) / 2))); try assumption.
+      + intros x Hx. rewrite gauss_call_R. destruct (Rle_dec ts x); [|lra]. destruct (Rlt_dec x te); [reflexivity|lra].
+      + intros x Hx. rewrite gauss_call_R. destruct (Rle_dec ts x); [|reflexivity]. destruct (Rlt_dec x te); [lra|reflexivity].
+      + intros a b _ _ _. apply gauss_is_RInt_line. assumption.
+    - destruct (Rle_dec ts t2) as [Ha|Ha]; [destruct (Rle_dec t1 te) as [Hb|Hb]|].
+      + rewrite (Rmax_left t2 ts) by lra. f_equal. f_equal.
+        unfold Rmax. destruct (Rle_dec t1 ts); [rewrite Rmin_left by lra; reflexivity|rewrite Rmin_left by lra; reflexivity].
+      + rewrite !Rmin_right; [lra| |]; unfold Rmax; destruct (Rle_dec t1 ts), (Rle_dec t2 ts); lra.
+      + assert (Rmax t1 ts = ts) by (apply Rmax_right; lra). assert (Rmax t2 ts = ts) by (apply Rmax_right; lra).
+        rewrite H, H0. lra.
   Qed.
 
-  (* ... and wrong outside: beyond the window the values are 0, the closed form is positive *)
-  Theorem gauss_int_outside tu ts te sg tol t1 t2 : 0 < sg -> ts <= te -> te <= t1 -> t1 < t2 ->
-    is_RInt (t_call RN (Gauss tu ts te sg tol) None) t1 t2 0
-    /\ 0 < t_int RN (Gauss tu ts te sg tol) None t1 t2.
+  (* the Gaussian integral is the tail-free erf difference when the interval lies inside the window *)
+  Lemma gauss_int_inside tu ts te sg tol t1 t2 : ts <= t1 -> t1 <= t2 -> t2 <= te ->
+    t_int RN (Gauss tu ts te sg tol) None t1 t2 =
+      gauss_G sg ((ts + te) / 2) t2 - gauss_G sg ((ts + te) / 2) t1.
   Proof.
-    intros Hs Hw H1 H12. split.
-    - apply is_RInt_zero_on; [lra|]. intros x Hx. rewrite gauss_call_R.
-      destruct (Rle_dec ts x); [|reflexivity]. destruct (Rlt_dec x te); [lra|reflexivity].
-    - rewrite gauss_int_R.
-      rewrite <- (is_RInt_unique _ _ _ _ (gauss_is_RInt_line sg ((ts + te) / 2) t1 t2 Hs)).
-      apply RInt_gt_0; [assumption| |].
-      + intros x _. unfold gauss_g. apply exp_pos.
-      + intros x _. apply gauss_g_cont. assumption.
-  Qed.
-  Theorem gauss_refuted :
-    exists tu ts te sg tol t1 t2, 0 < sg /\ ts <= te /\ t1 <= t2
-      /\ is_RInt (t_call RN (Gauss tu ts te sg tol) None) t1 t2 0
-      /\ t_int RN (Gauss tu ts te sg tol) None t1 t2 <> 0.
-  Proof.
-    exists 0%Z, (-1), 1, 1, (1/2), 2, 3.
-    destruct (gauss_int_outside 0%Z (-1) 1 1 (1/2) 2 3 ltac:(lra) ltac:(lra) ltac:(lra) ltac:(lra)) as [A B].
-    split; [lra|]. split; [lra|]. split; [lra|]. split; [exact A|]. apply Rgt_not_eq. exact B.
+    intros. rewrite gauss_int_R, !Rmax_left, !Rmin_left by lra. reflexivity.
   Qed.
 End WithErf.
